@@ -343,7 +343,7 @@ def rule_c(ctx):
                 kinds = ["shape" if (".shape" in norm(s) or isinstance(s, ast.Tuple)) else "other" for s in sides]
                 if "shape" in kinds:
                     ctx.ob(R, f.qname, f"comparison `{norm(c)}` compares a shape with a shape", kinds == ["shape", "shape"],
-                           "a shape tuple is compared with a non-shape (numpy broadcasts the comparison or raises): the guard cannot mean 'same resolution'", c)
+                           "a shape tuple is compared with a non-shape (numpy broadcasts the comparison or raises): the guard cannot mean 'same resolution'", c, evidence=True)
     # static threshold
     ctx.consult(STM)
     h = m.func(STM, "StaticThresholdModel._call_homogeneous")
